@@ -92,6 +92,37 @@ def gen_dense(rng, kmax=8):
     return [lib.shuffle_nodes(rng, d) for _ in range(3)]
 
 
+OVERLAP_EDGES = [("a", "g3"), ("g2", "g4"), ("g3", "g1"), ("g3", "g4"), ("g3", "g2"), ("g0", "g3"), ("g0", "g4"), ("g0", "g2"),
+                 ("g1", "g4"), ("g1", "g0"), ("g4", "g1")]
+
+
+def gen_overlap3(rng, constrained):
+    """three overlapping loops on five gates (the structure of the C18-s4 witness: one cycle needs TWO backward edges of the greedy
+    order): random gate types / names / output marks; insertion orders with g3 < g0 < g1 < g4 (the tie-break pattern that makes the
+    heuristic pick both) or fully random"""
+    gates = ["g0", "g1", "g2", "g3", "g4"]
+    if constrained:
+        order = ["g3", "g0", "g1", "g4"]
+        order.insert(rng.randint(0, 4), "g2")
+    else:
+        order = gates[:]
+        rng.shuffle(order)
+    order.insert(rng.choice([0, 5]), "a")
+    names = dict(zip(gates, rng.sample(["p", "q", "r", "s", "t", "u", "w"], 5)))
+    names["a"] = "a"
+    fi = {n: [] for n in order}
+    for u, v in OVERLAP_EDGES:
+        fi[v].append(u)
+    nodes = []
+    for n in order:
+        if n == "a":
+            nodes.append(["a", "input", rng.random() < 0.2, []])
+        else:
+            t = rng.choice(lib.SINGLE) if len(fi[n]) == 1 else rng.choice(lib.MULTI)
+            nodes.append([names[n], t, n in ("g0", "g4") or rng.random() < 0.2, sorted(names[f] for f in fi[n])])
+    return {"name": "top", "nodes": nodes, "bbs": []}
+
+
 def stress_names(rng, d):
     """rename some nodes to names the construction generates itself"""
     d = json.loads(json.dumps(d))
@@ -134,6 +165,8 @@ def generate(rng, tier):
             kind = "x-const"
         out.append({"fn": "acyclic_unroll", "circuit": d, "kind": kind})
     out += [{"fn": "acyclic_unroll", "circuit": gen_petals(rng), "kind": "petals"} for _ in range(max(12, n // 10))]
+    for i in range(8 if tier == "quick" else n // 8):
+        out.append({"fn": "acyclic_unroll", "circuit": gen_overlap3(rng, i % 4 != 3), "kind": "overlap3"})
     for _ in range(4 if tier == "quick" else n // 12):
         out += [{"fn": "acyclic_unroll", "circuit": d, "kind": "dense-loops"} for d in gen_dense(rng, 7 if tier == "quick" else 8)]
     return out
